@@ -272,35 +272,50 @@ def observe(prog, cfg, calls, src=None):
 
 
 def compare(prog, calls, model, obs, unordered=()):
-    """model = (results, final) from parse_run; obs from observe.  Returns None or a description
-    (first difference) with the source-level rule violated."""
+    """first difference (or None)"""
+    ds = compare_all(prog, calls, model, obs, unordered, first_only=True)
+    return ds[0] if ds else None
+
+
+def compare_all(prog, calls, model, obs, unordered=(), first_only=False):
+    """model = (results, final) from parse_run; obs from observe.  Returns the list of differences (one per differing call,
+    plus at most one for the final storage), each a description with expected (source rule) vs observed."""
     mres, mfin = model
     ores, osto = obs
+    out = []
     for i, (m, o, c) in enumerate(zip(mres, ores, calls)):
+        if out and first_only:
+            return out
         fun = prog.exts[c.fidx]
-        ok, out, logs = o
+        ok, rdata, logs = o
         if m[0] == "error":
-            return {"call": i, "what": "model-error", "model": m[1]}
+            out.append({"call": i, "what": "model-error", "model": m[1]})
+            continue
         if m[0] == "revert":
             if ok:
-                return {"call": i, "what": "status", "expected": "revert", "observed": "success", "out": out.hex()}
+                out.append({"call": i, "what": "status", "expected": "revert", "observed": "success", "out": rdata.hex()})
             continue
         if not ok:
-            return {"call": i, "what": "status", "expected": "success", "observed": "revert", "out": out.hex()}
+            out.append({"call": i, "what": "status", "expected": "success", "observed": "revert", "out": rdata.hex()})
+            continue
         exp = expected_return(m[1], fun.ret)
-        if exp != out:
-            return {"call": i, "what": "return-data", "expected": exp.hex(), "observed": out.hex()}
+        if exp != rdata:
+            out.append({"call": i, "what": "return-data", "expected": exp.hex(), "observed": rdata.hex()})
+            continue
         elogs = expected_logs(prog, m[2])
         olog = [(tuple(t), d) for t, d in logs]
         if i in unordered:   # documented-unspecified order (builtin / log arguments): exactly-once only
             elogs, olog = sorted(elogs), sorted(olog)
         if elogs != olog:
-            return {"call": i, "what": "logs", "expected": [(t[0].hex()[:8], d.hex()) for t, d in elogs],
-                    "observed": [([x.hex()[:8] for x in t], d.hex()) for t, d in logs]}
+            out.append({"call": i, "what": "logs", "expected": [(t[0].hex()[:8], d.hex()) for t, d in elogs],
+                        "observed": [([x.hex()[:8] for x in t], d.hex()) for t, d in olog]})
+    if out and first_only:
+        return out
     for (name, t), v in zip(prog.sto, mfin):
         exp = flat_slots(v, t)
         got = osto[name]
         for k, (e, g) in enumerate(zip(exp, got)):
             if e is not None and e != g:
-                return {"what": "final-storage", "var": name, "slot_offset": k, "expected": hex(e), "observed": hex(g)}
-    return None
+                out.append({"what": "final-storage", "var": name, "slot_offset": k, "expected": hex(e), "observed": hex(g)})
+                return out
+    return out
